@@ -751,6 +751,46 @@ Proof.
                                           (discriminate H || (assert (X : Some v = None) by (apply H; auto); discriminate X))
          end).
 Qed.
+Lemma udispatch_complete d b :
+  udispatch V udec d b = None <-> (forall t, In t (uallowed d) -> udec t b = None).
+Proof.
+  split.
+  - intros H t Ht. destruct (udec t b) as [v |] eqn:E; [| reflexivity]. exfalso.
+    destruct d; simpl in Ht, H; unfold try2, try1 in H; try contradiction;
+      repeat match type of H with
+             | context [udec ?t0 b] => let E' := fresh "E" in destruct (udec t0 b) eqn:E'
+             end; try discriminate;
+      repeat (destruct Ht as [<- | Ht]; [congruence |]); contradiction.
+  - intros H. destruct d; simpl in *; unfold try2, try1; try reflexivity;
+      repeat match goal with
+             | |- context [udec ?t0 b] => rewrite (H t0) by (simpl; auto)
+             end; reflexivity.
+Qed.
+
+(* totality of the type-directed decoding: for every duty type and every byte string the result
+   is either an error or a value whose Go type is one of the types that belong to the duty type,
+   and that type's own decoder produced it. *)
+Lemma sdispatch_total d b :
+  match sdispatch V sdec d b with
+  | Some (t, v) => In t (sallowed d) /\ sdec t b = Some v
+  | None => forall t, In t (sallowed d) -> sdec t b = None
+  end.
+Proof.
+  destruct (sdispatch V sdec d b) as [[t v] |] eqn:E.
+  - now apply sdispatch_sound.
+  - now apply sdispatch_complete.
+Qed.
+
+Lemma udispatch_total d b :
+  match udispatch V udec d b with
+  | Some (t, v) => In t (uallowed d) /\ udec t b = Some v
+  | None => forall t, In t (uallowed d) -> udec t b = None
+  end.
+Proof.
+  destruct (udispatch V udec d b) as [[t v] |] eqn:E.
+  - now apply udispatch_sound.
+  - now apply udispatch_complete.
+Qed.
 End DispatchFacts.
 
 (* ------------------------------------------------------------------------------------------- *)
